@@ -11,7 +11,19 @@ NT == Len(Tr)
 VARIABLE l
 Bad(cond, prop, why) == IF cond THEN {} ELSE {<<prop, why>>}
 
+(* one very long array (thorough tier): more than 2^32 packed mantissa bits in one call.  The values are not
+   logged; the driver reports the index of the first element whose decoded bit pattern differs (-1: none). *)
+GiantFails(ev) ==
+  Bad(ev.fault = 0 /\ ev.dfault = 0, "C07", "float encode/decode of a very long array crashed or overran an exact-size buffer")
+  \cup Bad(ev.fault # 0 \/ (ev.written >= 1 /\ ev.written <= ev.bound), "C03",
+           "float encoder wrote more than varintFloatMaxEncodedSize for a very long array")
+  \cup Bad(ev.fault # 0 \/ ev.dfault # 0 \/ ev.consumed = ev.written, "C16",
+           "float decoder consumed a different number of bytes than were written (very long array)")
+  \cup Bad(ev.fault # 0 \/ ev.dfault # 0 \/ ev.mismatch = -1, "C07",
+           "full precision is not bit-exact beyond 2^32 packed bits")
+
 Fails(ev) ==
+  IF ev.e = "FGiant" THEN GiantFails(ev) ELSE
   IF ev.fault # 0 \/ ev.dfault # 0
   THEN {<<"C07", "float encode/decode crashed or overran an exact-size buffer">>}
        \* the destination is exactly varintFloatMaxEncodedSize bytes ending at a guard page
